@@ -4,8 +4,9 @@ Virtual clock (dsched).  Phase-structured condition-variable programs whose outc
 is exact:
   phase A  w in 1..6 waiters enqueue on one cond in a generated order, each untimed or
            timed with a deadline that is past / near (1..5 ms) / far, ULT or external;
-  phase B  the orchestrator advances the virtual clock to T and waits until exactly the
-           waiters with deadline <= T have returned ABT_ERR_COND_TIMEDOUT;
+  phase B  the orchestrator advances the virtual clock to T (some deadlines expire at once,
+           in deadline order) and then lets virtual time flow until exactly the waiters
+           with a finite deadline have returned ABT_ERR_COND_TIMEDOUT;
   phase C  s signals, after the k-th of which exactly min(k, remaining) waiters must have
            returned ABT_SUCCESS (a stale entry of a timed-out waiter that swallows a
            signal, or a waiter cut out of the queue, leaves the orchestrator waiting for
@@ -47,8 +48,8 @@ def phased(draw, ctx):
         else:
             dl = {"past": -5, "near": draw(st.integers(1, 5)), "far": FAR}[timed]
             wait = "ctimedwait 0 0 %d" % dl
-            if dl <= T:
-                timeouts += 1
+            if timed != "far":
+                timeouts += 1   # time keeps flowing in phase B until all finite deadlines expired
         prog = ["fwait %d" % (i + 1), "lock 0", wait, "unlock 0"]
         if kind == "ext":
             exts.append(prog)
@@ -63,7 +64,7 @@ def phased(draw, ctx):
         main += ["fset %d" % (i + 1), "awaitvar %d %d" % (CREG, i + 1), "lock 0", "unlock 0"]
     if T > 0:
         main.append("advance %d" % (T * 1000))
-    main.append("awaitvar %d %d" % (CTO, timeouts))
+    main.append("awaitvar_t %d %d 50" % (CTO, timeouts))
     remaining = w - timeouts
     s = draw(st.integers(0, w))
     for k in range(s):
@@ -107,7 +108,7 @@ def racing(draw, ctx):
                          (u, draw(st.integers(0, npools - 1)), "; ".join(prog)))
             creates.append("create %d" % u)
     sk = draw(st.sampled_from(["ult", "ext"]))
-    sprog = ["csigloop 0 0 %d %d" % (total, draw(st.integers(0, 2 ** 16 - 1)))]
+    sprog = ["csigloop 0 0 %d %d" % (total, (1 << 17) | draw(st.integers(0, 2 ** 16 - 1)))]
     if sk == "ext":
         exts.append(sprog)
     else:
